@@ -24,7 +24,8 @@ META = {
                     f"2-d: any 1, 2 or 3 nodes (quick: all single nodes, sampled pairs and triples; thorough: all) of a 2x2 Cartesian or "
                     f"2x2 structured triangle grid (thorough also 3x2 Cartesian, sampled) displaced "
                     f"by symbolic (dx, dy) in [-{PERT}, {PERT}]^2 (cells stay convex and positively oriented)",
-                    "1-d: 3 (thorough: 3-5) cells, all interior and end nodes symbolic, increasing with spacing >= 2^-30 (cells of any practical length, in particular much shorter than 1e-3), total length >= 1/4, on the x-axis"],
+                    "the same two grids with the node order of every third face reversed (not consistently oriented: fallback branch "
+                    "for convex cells), 1 (thorough: up to 3) displaced nodes", "1-d: 3 (thorough: 3-5) cells, all interior and end nodes symbolic, increasing with spacing >= 2^-30 (cells of any practical length, in particular much shorter than 1e-3), total length >= 1/4, on the x-axis"],
     "stubs": ["np.sqrt(x): |t| when x is syntactically t*t, otherwise fresh r >= 0 with r*r == x"],
     "outside": ["3-d grids (_compute_geometry_3d: sub-face areas are square roots that enter the face centroids "
                 "rationally; z3 did not decide the resulting queries)", "grids embedded in a tilted plane / line (C20)",
@@ -41,6 +42,19 @@ def _grid(kind):
         return pp.StructuredTriangleGrid([2, 2])
     if kind == "cart32":
         return pp.CartGrid([3, 2])
+    if kind in ("cartflip", "triflip"):
+        # same cells, but the node order of every third face is reversed: the face-node ordering no longer
+        # forms oriented loops, which sends compute_geometry down its fallback for convex cells
+        g = pp.CartGrid([2, 2]) if kind == "cartflip" else pp.StructuredTriangleGrid([2, 2])
+        import scipy.sparse as sps_
+
+        fn = g.face_nodes.tocsc()
+        idx = fn.indices.reshape((2, g.num_faces), order="F").copy()
+        for f in range(0, g.num_faces, 3):
+            idx[:, f] = idx[::-1, f]
+        g.face_nodes = sps_.csc_matrix((np.ones(idx.size, dtype=bool), idx.ravel("F"), np.arange(0, idx.size + 1, 2)),
+                                       shape=(g.num_nodes, g.num_faces))
+        return g
     raise ValueError(kind)
 
 
@@ -62,6 +76,9 @@ def shards(tier, seed):
             subsets += pairs + triples
         for s in subsets:
             out.append({"dim": 2, "kind": kind, "nodes": s})
+    for kind in ("cartflip", "triflip"):
+        for ns in ([[4], [0]] if tier == "quick" else [[4], [0], [1], [4, 5], [3, 4, 7]]):
+            out.append({"dim": 2, "kind": kind, "nodes": ns})
     for n in ((3,) if tier == "quick" else (3, 4, 5)):
         out.append({"dim": 1, "n": n})
     return out
